@@ -49,6 +49,20 @@ def monitor_models(rep, pid, n, ndates=4, opts=None, mode="exact", known=None):
         for a in cfg["arcs"]:
             stats["arc_classes"][a["type_"]] = stats["arc_classes"].get(a["type_"], 0) + 1
         mon, model, err, out = MN.run_cfg(cfg, mode, pids=(pid,))
+        if pid in ("C06", "C12") and i % 4 == 3 and err is None and model is not None and not getattr(mon, "too_slow", False):
+            # ... and once more after Model.reinit(): nothing negative, nothing raised in a re-initialised model either
+            try:
+                NG.set_pollutants(cfg["polset"])
+                model.reinit()
+            except Exception as ex:
+                mon.bad("C12", f"Model.reinit() raised {type(ex).__name__}: {ex}")
+            else:
+                mon2, _, err2, _ = MN.run_cfg(cfg, mode, pids=(pid,), model=model)
+                mon.viol += [(p_, "after Model.reinit(): " + m_, s_) for (p_, m_, s_) in mon2.viol]
+                mon.steps += mon2.steps
+                stats["reinit_reruns"] = stats.get("reinit_reruns", 0) + 1
+            finally:
+                NG.set_pollutants("default")
         stats["models"] += 1
         stats["timesteps"] += mon.steps
         stats["sizes"][size] = stats["sizes"].get(size, 0) + 1
